@@ -591,12 +591,22 @@ def run_cases(ctx, res, cases, label):
         jobs.append((d, [ctx.cppcheck, "--dump", "--quiet"] + list(c.get("args") or []) + [c["main"]], [(k, os.path.join(d, c["main"] + ".dump"))]))
     n_viol = 0
     for cwd, argv, ent in jobs:
-        try:
-            r = subprocess.run(argv, cwd=cwd, stdout=subprocess.PIPE, stderr=subprocess.PIPE, timeout=600)
-            rc = r.returncode
-        except subprocess.TimeoutExpired:
-            rc = -999
-            res.count("cli:timeout")
+        rc = None
+        for attempt in range(40):
+            try:
+                r = subprocess.run(argv, cwd=cwd, stdout=subprocess.PIPE, stderr=subprocess.PIPE, timeout=600)
+                rc = r.returncode
+                break
+            except subprocess.TimeoutExpired:
+                rc = -999
+                res.count("cli:timeout")
+                break
+            except OSError:
+                # the binary is being relinked by a concurrent check of a colleague (ETXTBSY / EACCES): wait for the linker
+                import time
+                time.sleep(3)
+        if rc is None:
+            raise core.CheckBroken("cannot execute %s" % argv[0])
         if rc < 0 and rc != -999:
             res.count("cli:signal")
         for k, dump in ent:
